@@ -15,7 +15,7 @@ META = {
              "send changes nothing; distinct = hash of the step trace; non-trivial = history with >= 1 refused and >= 3 accepted sends"),
     "assumptions": ["transport faults (C07/C09) are excluded from these histories; inbound ResendRequests are part of them since repo fix 7af4ef7 (their replies are judged by C06)"],
 }
-REQUIRED_ORACLES = ["numbering", "journal-readback", "stored-counter", "refused-send-unchanged", "bystander-session-untouched"]
+REQUIRED_ORACLES = ["numbering", "journal-readback", "stored-counter", "refused-send-unchanged", "bystander-session-untouched", "stored-counter-committed"]
 NSHARDS = 16
 N = {"quick": 250, "thorough": 5000}
 
@@ -32,7 +32,27 @@ async def history(acc, clock, rnd, cid):
     from vf.sim import endpoint as E
     from vf.sim.net import settle, advance, SpinAbort
     role = rnd.choice(["acceptor", "initiator"])
-    j = Journaler()
+    # some histories keep the journal in a file, so that a SECOND connection can read what is really committed
+    jfile = None
+    if rnd.random() < 0.35:
+        import os
+        jfile = f"/dev/shm/vf_c05_{os.getpid()}.db"
+        for x in (jfile, jfile + "-journal"):
+            if os.path.exists(x):
+                os.unlink(x)
+    j = Journaler(jfile)
+
+    def committed_next_out():
+        """next outbound number as a different connection (= another process, or this one after a restart) sees it"""
+        import sqlite3
+        c2 = sqlite3.connect(jfile, timeout=0)
+        try:
+            row = c2.execute("SELECT outboundSeqNo FROM session WHERE targetCompId = ? AND senderCompId = ?", ("PEER", "ME")).fetchone()
+            return None if row is None else row[0] + 1
+        except sqlite3.OperationalError:
+            return "locked"
+        finally:
+            c2.close()
     n0 = rnd.choice([1, 1, 2, 10 ** 6, "prepop"])
     if n0 == "prepop":
         s0 = j.create_or_load("PEER", "ME")
@@ -103,13 +123,21 @@ async def history(acc, clock, rnd, cid):
         if not (live == stored == exp_next):
             V("counter:stored-live-last+1-disagree", f"live={live} stored={stored} last+1={exp_next}")
             return False
+        if jfile is not None:
+            acc.oracle("stored-counter-committed")
+            cm = committed_next_out()
+            if cm == "locked":
+                acc.add("committed_counter_reads_skipped_locked")
+            elif cm is not None and cm != exp_next:
+                V("counter:committed-value-lags", f"the writing connection reports next-out {stored}, a second connection on the journal file reads {cm} (the update is not committed)")
+                return False
         return ok
 
     try:
         nsteps = rnd.randrange(10, 41)
         for step in range(nsteps):
             st = ep.connection_state
-            acts = ["send_app", "send_app", "send_app_stale34", "send_hb", "send_tr", "send_test_req", "send_rr", "send_logon", "send_logout"]
+            acts = ["send_app", "send_app", "send_app_stale34", "send_app_dupflag_n", "send_hb", "send_tr", "send_test_req", "send_rr", "send_logon", "send_logout"]
             if not connected:
                 acts += ["attach"] * 6
             else:
@@ -146,6 +174,8 @@ async def history(acc, clock, rnd, cid):
             if a.startswith("send"):
                 m = {"send_app": lambda: FIXMessage("D", {11: f"c{step}", 55: "X"}),
                      # a new message that still carries a MsgSeqNum tag (e.g. a decoded message relayed to this session): a new number is allocated
+                     # PossDupFlag present but 'N': an original message, numbered and journaled like any other
+                     "send_app_dupflag_n": lambda: FIXMessage("D", {11: f"n{step}", 55: "X", 43: "N"}),
                      "send_app_stale34": lambda: FIXMessage("D", {11: f"s{step}", 55: "X", 34: rnd.choice([1, 999, max(1, exp_next - 1)])}), "send_hb": lambda: FIXMessage("0"),
                      "send_tr": lambda: FIXMessage("1", {112: "manual"}), "send_rr": lambda: FIXMessage("2", {7: 1, 16: 0}),
                      "send_logon": lambda: FIXMessage("A", {98: 0, 108: 30}), "send_logout": lambda: FIXMessage("5", {58: "bye"}),
@@ -217,6 +247,16 @@ async def history(acc, clock, rnd, cid):
         V("spin", str(e))
     finally:
         E.stop_tasks(ep)
+        if jfile is not None:
+            import os
+            try:
+                j.cursor.close()
+                j.conn.close()
+            except Exception:
+                pass
+            for x in (jfile, jfile + "-journal"):
+                if os.path.exists(x):
+                    os.unlink(x)
     return trace, refused, accepted
 
 
